@@ -84,6 +84,13 @@ CHECKS["C03"] = (True, TV, "translation validation per program over call graphs:
     "arguments; z3 decides per joint path that return value and globals equal the reference interpreter's.",
     "Trusts z3, the proxy model, the reference interpreter and the overload table O3. Array/struct arguments and optional parameters are outside.", "DESIGN.md 5 (C03)")
 
+CHECKS["C04"] = (True, TV, "translation validation per program over an exhaustively generated vector/matrix family: reference interpreter vs the real typing, lowering and VM with every component, scalar and dynamic index symbolic (symx + z3)",
+    "Family F4 is generated from tables: constructors in every split of scalars and smaller vectors, + - and the six comparisons on every int/float vector type, scaling by a scalar on either side, "
+    "matrix + - * for 3x3 and 4x4, constant and dynamic v[i], m[i], m[i][j], every swizzle read mask of length 1-4 over both letter sets, every non-repeating swizzle write mask, element and row "
+    "writes with constant and dynamic index, copies followed by writes to the copy or the source. Each member is compiled by the real front end and run on the real VM with all components "
+    "symbolic; z3 decides per joint path that every component of the result equals the reference interpreter's.",
+    "Trusts z3, the proxy model (floats as reals), the reference interpreter. uint vectors and non-square matrices outside; matrix*vector and scalar*matrix are recorded known findings.", "DESIGN.md 5 (C04)")
+
 NOT_YET = "check not built yet in this round (see DESIGN.md status); nothing is claimed"
 NA = {
     "C18": "quantifies over hash seeds, processes and compilation histories: none of these is a value flowing through the code, so there is no assertion over symbolic variables for a solver to decide (DESIGN.md section 6)",
